@@ -1,0 +1,14 @@
+//go:build verif
+// +build verif
+
+package protocol
+
+// Verification hook, compiled only with -tags verif: a page taken from the
+// pool is overwritten with a poison pattern before it is reused, so that a
+// reference that outlived its release reads garbage deterministically instead
+// of (possibly) the old bytes.
+func verifPoisonPage(p *page) {
+	for i := range p.buffer {
+		p.buffer[i] = 0xA5
+	}
+}
